@@ -82,6 +82,8 @@ for k4, v4 in json.load(open(V + '/records/round4_breaking_first_pass.json'))['f
     fp[k4] = v4
 for k5, v5 in json.load(open(V + '/records/round5_breaking_first_pass.json'))['first_pass'].items():
     fp[k5] = v5
+for k6, v6 in json.load(open(V + '/records/round6_breaking_first_pass.json'))['first_pass'].items():
+    fp[k6] = v6
 mrows = ['| change | what it does | first pass | reported by (after tuning) |', '|--------|--------------|------------|---------------------------|']
 own = other = missed = 0
 for e in sorted(exps, key=keyf):
@@ -117,6 +119,6 @@ summary = (f"{len(exps)} changes ({sum(1 for e in exps if e['id'] in meta)} seed
 head = open(V + '/tools/design_head.md').read().replace('@@VERDICT_TABLE@@', verdict)
 tail = open(V + '/tools/design_tail.md').read().replace('@@MATRIX@@', matrix).replace('@@MATRIX_SUMMARY@@', summary)
 nben = len([d for d in os.listdir(V + '/benign') if os.path.isdir(V + '/benign/' + d)])
-doc = (head + persec + tail).replace('@@BENIGN_TOTAL@@', f'{nben} of {nben}').replace('@@BENIGN_COUNT@@', str(nben))
+doc = (head + persec + tail).replace('@@REPORTED_OF_TOTAL@@', f'{own + other} of {len(exps)}').replace('@@BENIGN_TOTAL@@', f'{nben} of {nben}').replace('@@BENIGN_COUNT@@', str(nben))
 open(V + '/DESIGN.md', 'w').write(doc)
 print('DESIGN.md written:', len((head + persec + tail).split('\n')), 'lines;', summary)
